@@ -107,6 +107,10 @@ void AsmContext::init()
 
   // .big_endian / .little_endian of the previous pass must not carry over.
   memory.endian = ENDIAN_LITTLE;
+
+  // Neither must its last .bss: a source that ends in .bss had its first
+  // .db refused in pass 2.
+  segment = SEGMENT_CODE;
 }
 
 void AsmContext::print_info(FILE *out)
